@@ -74,6 +74,7 @@ def _flag_cond(val, pol, flag):
 
 def _check_flag_table(ctx, model, dm):
     nt = model.nodes
+    n_descend = 0
     for hname_, (flag, ncls, has_descend) in FLAG_TABLE.items():
         mem = model.lookup(dm, hname_)
         tag = f"T/DependencyMapper/{hname_}"
@@ -116,14 +117,30 @@ def _check_flag_table(ctx, model, dm):
                        f"descend_args)': state {state}", {"branch": state})
             elif rv[0] == "call" and rv[1] == "self.combine":
                 got = _covered_fields(rv, kinds)
-                want = set(kinds) - {"function"}
+                # the *name* of the called function is not a dependency; a head
+                # that is not a plain variable (f(x)(y), fs[i](y)) is an
+                # expression with variables of its own
+                from ..summary import facts_of
+                head_is_name = any(
+                    pol and v[0] == "call" and v[1] == "isinstance"
+                    and v[2][0] == ("field", "function")
+                    and "Variable" in str(v[2][1])
+                    for _, pol0, v0 in ps.conds if isinstance(v0, tuple)
+                    for v, pol in facts_of(v0, pol0))
+                want = set(kinds) - ({"function"} if head_is_name else set())
                 ok = state.get("descend") is True and want <= got and has_descend
                 seen.add("descend")
-                ctx.ob(f"{tag}/descend-args", ok, loc,
+                n_descend = n_descend + 1
+                ctx.ob(f"{tag}/descend-args" + (
+                    "" if head_is_name else "/computed-head"), ok, loc,
                        f"descend_args covers {sorted(want)}" if ok else
                        f"DependencyMapper.{hname_}: the combine(...) exit must be "
                        f"the descend_args branch and cover {sorted(want)}; covers "
-                       f"{sorted(got)} under {state}",
+                       f"{sorted(got)} under {state}" + (
+                           "" if head_is_name or "function" in got else
+                           ": the call head is never visited, so for a head that "
+                           "is not a plain function name the variables in it are "
+                           "missing (f(x)(y) -> {y}, fs[i](x) -> {x})"),
                        {"covered": sorted(got)})
             elif rv[0] == "call" and (rv[1] == f"super.{hname_}" or (
                     rv[1].endswith(".map_common_subexpression")
